@@ -580,7 +580,13 @@ func (b *BaseStore) Load(ctx context.Context, amount int) error {
 			span.AddEvent("store-head-loaded")
 
 			span.AddEvent("store-heads-joining")
-			if inErr = joinTrimmed(oplog, l, amount); inErr != nil {
+			var own ipfslog.Log
+			if own, inErr = b.ownEntriesOnly(l); inErr != nil {
+				span.AddEvent("store-heads-joining-failed")
+				return
+			}
+
+			if inErr = joinTrimmed(oplog, own, amount); inErr != nil {
 				span.AddEvent("store-heads-joining-failed")
 				// err = fmt.Errorf("unable to join log: %w", err)
 				// TODO: log
@@ -613,6 +619,34 @@ func (b *BaseStore) Load(ctx context.Context, amount int) error {
 	}
 
 	return nil
+}
+
+// ownEntriesOnly returns l restricted to the entries written for this database.
+// ipfs-log's Join does not verify entries carrying another log id but still
+// merges the other log's heads, so a fetched log that contains such an entry
+// (announced as a head, or referenced by a writer's entry) would make it an
+// unverified head of this database's log.
+func (b *BaseStore) ownEntriesOnly(l ipfslog.Log) (ipfslog.Log, error) {
+	entries := l.GetEntries().Slice()
+	own := make([]ipfslog.Entry, 0, len(entries))
+
+	for _, e := range entries {
+		if e.GetLogID() == l.GetID() {
+			own = append(own, e)
+		}
+	}
+
+	if len(own) == len(entries) {
+		return l, nil
+	}
+
+	return ipfslog.NewLog(b.IPFS(), b.Identity(), &ipfslog.LogOptions{
+		ID:               l.GetID(),
+		Entries:          entry.NewOrderedMapFromEntries(own),
+		AccessController: b.AccessController(),
+		SortFn:           b.SortFn(),
+		IO:               b.options.IO,
+	})
 }
 
 // joinTrimmed joins l into oplog and, when a positive amount is given, trims
@@ -856,7 +890,12 @@ func (b *BaseStore) LoadFromSnapshot(ctx context.Context) error {
 		return fmt.Errorf("unable to load log: %w", err)
 	}
 
-	if _, err = b.OpLog().Join(log, -1); err != nil {
+	own, err := b.ownEntriesOnly(log)
+	if err != nil {
+		return fmt.Errorf("unable to filter log: %w", err)
+	}
+
+	if _, err = b.OpLog().Join(own, -1); err != nil {
 		return fmt.Errorf("unable to join log: %w", err)
 	}
 
@@ -1019,7 +1058,13 @@ func (b *BaseStore) replicationLoadComplete(ctx context.Context, logs []ipfslog.
 	b.Logger().Debug("replication load complete")
 	entries := []ipfslog.Entry{}
 	for _, log := range logs {
-		_, err := oplog.Join(log, -1)
+		log, err := b.ownEntriesOnly(log)
+		if err != nil {
+			b.Logger().Error("unable to filter fetched log", zap.Error(err))
+			continue
+		}
+
+		_, err = oplog.Join(log, -1)
 		if err != nil {
 			// a log that cannot be joined (unauthorised or tampered entry) is
 			// dropped; it must not take the rest of the batch with it
